@@ -157,7 +157,11 @@ def load_units(specs, no_bodies=False):
 def syntax_only(specs):
     """compile witnesses: returns list of (label, ok, stderr_tail)"""
     def one(s):
-        r = _run(["clang", "-fsyntax-only"] + s.all_flags() + [s.source()])
+        # `-w` would also silence what -Werror=<x> promotes (a vacuous witness): switch everything off by name instead, so
+        # that the -Werror=... options of the unit re-enable exactly their diagnostics
+        fl = [("-Wno-everything" if f == "-w" else f) for f in s.all_flags() if f != "-w" or True]
+        fl = [f for f in fl if f != "-Wno-everything"] + ["-Wno-everything"] + [f for f in s.cflags if f.startswith("-Werror=")]
+        r = _run(["clang", "-fsyntax-only"] + fl + [s.source()])
         return s.label, r.returncode == 0, r.stderr.decode()[-800:]
     with concurrent.futures.ThreadPoolExecutor(max_workers=JOBS) as ex:
         return list(ex.map(one, specs))
